@@ -49,6 +49,8 @@ def scenarios():
                "pre": [], "inv": {"target": "//:top", "jobs": None, "strategy": "blocked-fifo", "seed": 12, "script": {"//:q0": {"launch_fail": "chdir"}}}})
     sc.append({"name": "stdout-gone-j3", "tasks": fan + [gen.mk_task("", "top", "group", [t["id"] for t in fan])], "break_stdout": True,
                "pre": [], "inv": {"target": "//:top", "jobs": 3, "strategy": "blocked-random", "seed": 13}})
+    sc.append({"name": "par-fan-j3-exits-while-aborting", "tasks": fan + [gen.mk_task("", "top", "combine", [t["id"] for t in fan])], "exits_after": 0.6,
+               "pre": [], "inv": {"target": "//:top", "jobs": 3, "strategy": "blocked-random", "seed": 14}})
     sc.append({"name": "par-lines", "tasks": fan + [gen.mk_task("", "top", "group", [t["id"] for t in fan])],
                "pre": [], "inv": {"target": "//:top", "jobs": 4, "strategy": "lines", "seed": 10}})
     return sc
@@ -103,7 +105,7 @@ def inject_case(arg):
         rows_before = sched.read_rows(root)
         inv = scn["inv"]
         spec = {"root": root, "argv": _argv(inv), "script": inv.get("script", {}), "strategy": inv["strategy"], "seed": inv["seed"],
-                "inject": {"signal": sig, "at_line": k, "scope": scope, "break_stdout": bool(scn.get("break_stdout"))}}
+                "inject": {"signal": sig, "at_line": k, "scope": scope, "break_stdout": bool(scn.get("break_stdout")), "exits_after": scn.get("exits_after")}}
         kind, res = common.run_forked(schedsim.run_invocation, spec, 90)
         out["sig"] = "%s-%d-%s" % (scn["name"], k, sig)
         if kind != "ok":
